@@ -51,7 +51,7 @@ def h_dispatch(sym):
             if act == RAISE:
                 raise RuntimeError('callback failure')
             if act == REMOVE_SELF:
-                inc.remove_header_callback(cb, r['port'], r['ch'], r['pmask'], r['cmask'])
+                inc.remove_header_callback(r['cb'], r['port'], r['ch'], r['pmask'], r['cmask'])
                 r['present'] = False
                 state['removed_now'].add(i)
             elif act == REMOVE_OTHER:
@@ -83,6 +83,10 @@ def h_dispatch(sym):
                  present=True, added_in=-1)
         regs.append(r)
         r['cb'] = make_cb(i)
+        if sym.B.get('callable_kinds') and i % 2 == 1:
+            # callbacks need not be plain functions: functools.partial objects and callable instances have no __name__
+            import functools
+            r['cb'] = functools.partial(r['cb']) if i % 4 == 1 else _CallableObj(r['cb'])
         if sym.B.get('concrete_regs') and (r['pmask'], r['ch'], r['cmask']) == (0xff, 0, 0):
             inc.add_port_callback(r['port'], r['cb'])
         else:
@@ -115,6 +119,14 @@ def h_dispatch(sym):
                 sym.goal('delivered')
         if state['removed_now']:
             sym.goal('removed-during-dispatch')
+
+
+class _CallableObj:
+    def __init__(self, fn):
+        self.fn = fn
+
+    def __call__(self, pk):
+        return self.fn(pk)
 
 
 def _concretise(sym, v):
@@ -204,8 +216,8 @@ HARNESSES = [
     Harness('match', h_dispatch, quick=dict(regs=3, packets=1, actions=False), thorough=dict(regs=4, packets=2, actions=False),
             timeout=(200, 2000), goals=('delivered',)),
     # concern 2: add/remove/raise from inside callbacks, concrete registrations, symbolic headers and actions
-    Harness('mutate', h_dispatch, quick=dict(regs=4, packets=2, concrete_regs=True),
-            thorough=dict(regs=5, packets=3, concrete_regs=True), timeout=(300, 3000),
+    Harness('mutate', h_dispatch, quick=dict(regs=4, packets=2, concrete_regs=True, callable_kinds=True),
+            thorough=dict(regs=5, packets=3, concrete_regs=True, callable_kinds=True), timeout=(300, 3000),
             goals=('delivered', 'removed-during-dispatch')),
     # both at once, small
     Harness('combined', h_dispatch, quick=dict(regs=2, packets=1), thorough=dict(regs=2, packets=2), timeout=(200, 2000),
